@@ -298,7 +298,9 @@ type fillOpt struct {
 	typeKeys   []uint64 // keys to prefer for fields named "Type" of uint kind
 	idPool     []uint64
 	depthLimit int
-	xmlChars   bool // only strings XML 1.0 can carry (no C0 controls but TAB LF CR): the SVG printer has to
+	bigInts    bool // signed integer fields may take values no float64 can represent (seed C14-13: a lenient
+	// UnmarshalJSON that reads coordinates through ParseFloat rounds everything above 2^53)
+	xmlChars bool // only strings XML 1.0 can carry (no C0 controls but TAB LF CR): the SVG printer has to
 	// replace anything else (it writes U+FFFD), so "the label is the topology's text" cannot be asked there
 }
 
@@ -333,7 +335,13 @@ func (o *fillOpt) pickStr(name string) string {
 	}
 	return poolGenericStr[o.rng.Intn(len(poolGenericStr))]
 }
+
+var poolBigInt = []int64{1<<53 + 1, -(1<<53 + 1), 1<<53 + 3, 1<<60 + 7, math.MaxInt64, math.MinInt64, 1 << 31, -(1 << 31) - 1, 1<<32 + 1, 1 << 53, 999999999999999999}
+
 func (o *fillOpt) pickInt(name string) int64 {
+	if o.bigInts && o.rng.Intn(6) == 0 {
+		return poolBigInt[o.rng.Intn(len(poolBigInt))]
+	}
 	if p, ok := poolInt[name]; ok {
 		return p[o.rng.Intn(len(p))]
 	}
